@@ -1477,3 +1477,308 @@ def c03(tier, sc):
                         "case dimension: 4 uniform assignments at depth 1; every mask of the payload's first word at depth 2; "
                         "separators uniform at depth 1, alternating with a space at depth 2"]
     return rep.finish()
+
+
+@check("C01")
+def c01(tier, sc):
+    rep = Report("C01", tier, "model_checking")
+    vh = build_harness(sc)
+    tfile, _ = gen_tables(sc, vh)
+    d = stage_specs(sc, "c01", [tfile])
+    big = tier == "thorough"
+    # (1) model: lexer x folder x decision x cascade over all short inputs; every index the algorithm
+    # uses stays in range (WindowInRange, NoWhitelistPanic, NoSemiIfPanic, LexInv), the loops terminate
+    beh = sqli_export(sc, d, rep, tier, only={"lex", "check"})
+    inputs = list(vgen.dedup(b["in"] for b in beh))
+    # (2) every construct cut at every offset, mutations, fragment walks, periodic tails
+    extra = sqli_inputs(tier, "c01")
+    allin = list(vgen.dedup(inputs + extra))
+    res = sqli_api(sc, vh, allin)
+    for x, r in zip(allin, res):
+        if r is None or "crash" in r:
+            rep.violation("IsSQLi crashed the process on %r: %s" % (show(x), (r or {}).get("crash", "")[-300:]), {"kind": "sqli.total", "a": x, "how": "crash"})
+        elif "hang" in r:
+            rep.violation("IsSQLi did not return on %r" % show(x), {"kind": "sqli.total", "a": x, "how": "hang"})
+        elif r.get("panic"):
+            rep.violation("IsSQLi panicked on %r: %s" % (show(x), r["panic"]), {"kind": "sqli.total", "a": x, "how": "panic"})
+    rep.part("real.short", from_model=len(inputs), constructs_cut_mutations_walks=len(extra), evaluated=len(allin))
+    # (3) long structured inputs: every lexical fragment (and pair) repeated, behind every opener
+    r0 = vgen.rng("c01")
+    frs = vgen.SQL_FRAGMENTS
+    cases = []
+    openers = [vgen.b(x) for x in ("", "'", '"', "`", "/*", "--", "#", "$a$", "$$", "q'[", "@", "[", "1", "select ", "(", "{ ", "\\")]
+    for f in frs:
+        for o in (openers if big else openers[:6]):
+            cases.append({"pre": o, "rep": f})
+    for _ in range(2000 if big else 300):
+        cases.append({"pre": r0.choice(openers), "rep": r0.choice(frs) + r0.choice(frs)})
+    size = (256 << 10) if big else (32 << 10)
+    maxstack = (16 << 20) if big else (4 << 20)
+    problems = run_pumps(sc, vh, "sqli-pump", cases, size, maxstack)
+    for idx, how, detail in problems:
+        c = cases[idx]
+        rep.violation("IsSQLi %s on %r + %r repeated to %d bytes: %s" % (how, show(c["pre"]), show(c["rep"]), size, detail[-300:]),
+                      {"kind": "sqli.pump", "pre": c["pre"], "rep": c["rep"], "size": size, "maxstack": maxstack, "how": how})
+    rep.part("real.long", cases=len(cases), size=size, problems=len(problems))
+    rep.cov["traces_validated_against_impl"] = len(allin) + len(cases)
+    rep.cov["evaluations"] = len(allin) + len(cases)
+    for x in allin[9000:9003]:
+        rep.sample(show(x))
+    rep.assumptions += ["a VIOLATION is only a real panic, fatal error or time-out of the real IsSQLi"]
+    return rep.finish()
+
+
+# ---------------------------------------------------------------------------
+# C05  thread-safe and pure
+
+def c05_pool(big):
+    S = vgen.b
+    sq = ["1' or 1=1 --", "hello world", "1 #x\n union select 1", "1 --x\n or 1=1", "'\" or 1=1 -- ", "1\" or 1=1 #", "select { `` x }",
+          "1 /*! union */ select 2", "a b c d e f g h", "1,2,3,4,5,6,7", "((((1))))", "'unclosed", "x' and sleep(5) #", "1 union select 1 -- sp_password",
+          "aaaaaaaaaaaaaaaaaaaaaaaaaaaaaaaaaaaaaaaaaaaa", "@@version", "1;if 1=1 drop table x", "\\' or 1=1 -- ", "'' ''", "1/*x*/--y\n#z"]
+    xs = ["<script>alert(1)</script>", "</a", "x' onerror=alert(1) y='", "<b></i", "<a href=\"javascript:alert(1)\">", "</a onclick=1><b>", "<!-- x --><p a=b>",
+          "plain text only", "x\" style=\"y", "x` onload=1", "<a href=x onclick", "<![CDATA[x]]><svg>", "<p title='</p><script>'>", "onclick"]
+    if not big:
+        sq, xs = sq[:12], xs[:10]
+    pool = []
+    for s in sq:
+        pool.append({"id": len(pool) + 1, "api": "sqli", "in": S(s)})
+    for s in xs:
+        pool.append({"id": len(pool) + 1, "api": "xss", "in": S(s)})
+    return pool
+
+
+@check("C05")
+def c05(tier, sc):
+    rep = Report("C05", tier, "model_checking")
+    vh = build_harness(sc)
+    vhr = build_harness(sc, race=True)
+    tfile, _ = gen_tables(sc, vh)
+    d = stage_specs(sc, "c05", [tfile])
+    big = tier == "thorough"
+    pool = c05_pool(big)
+    pfile = sc.path("pool.ndjson")
+    write_ndjson(pfile, pool)
+    # reference: every pool input as the only call of a freshly started process
+    refs = {}
+    from concurrent.futures import ThreadPoolExecutor
+
+    def one(p):
+        rc, out = run([vh, "api-one", pfile, str(p["id"])], timeout=60)
+        if rc != 0:
+            raise ToolFailure("reference run failed for pool item %d: %s" % (p["id"], out[-500:]))
+        return json.loads(out.strip().split("\n")[-1])
+    with ThreadPoolExecutor(max_workers=vlib.NCPU) as ex:
+        for p, r in zip(pool, ex.map(one, pool)):
+            refs[p["id"]] = r
+    gates = {i: len(r["obs"]["events"]) for i, r in refs.items()}
+    trace = []
+    for i, r in sorted(refs.items()):
+        o = r["obs"]
+        trace.append({"ev": "ref", "id": i, "api": o["api"], "res": o["res"], "fp": o["fp"], "events": o["events"], "panic": o["panic"],
+                      "tables": r["tables_after"]})
+        if r["tables_before"] != r["tables_after"]:
+            rep.violation("tables changed during a single call on pool item %d" % i, {"kind": "api.tables", "id": i})
+    # model: every interleaving at gate granularity, every history; exported and forced on the real code
+    ids = sorted(gates)
+    sq_ids = [i for i in ids if pool[i - 1]["api"] == "sqli"]
+    xs_ids = [i for i in ids if pool[i - 1]["api"] == "xss"]
+    pick = sorted(sq_ids, key=lambda i: -gates[i])[:2] + sq_ids[1:2] + xs_ids[:1]
+    pick = sorted(set(pick))
+
+    def gates_fn(sel):
+        return "(" + " @@ ".join("%d :> %d" % (i, gates[i]) for i in sel) + ")"
+    runs = [("sched2", pick, [1, 2], 1), ("hist3", ids[:: (1 if big else 2)][:8], [1], 3), ("hist2", ids, [1], 2)]
+    if big:
+        runs.append(("sched3", pick[:2], [1, 2, 3], 1))
+        runs.append(("sched2x2", pick[:2], [1, 2], 2))
+    cases = []
+    for name, sel, procs, qlen in runs:
+        res = vlib.tlc_mc(sc, d, "Api", "Api_" + name, {"Pool": tla_set(sel), "Gates": gates_fn(sel), "Procs": tla_set(procs),
+                                                         "QLen": qlen, "DoExport": "TRUE"},
+                          invariants=["Pure", "Export"], properties=["TablesImmutable"], timeout=3000)
+        if not res.ok:
+            raise ToolFailure("TLC failed on Api/%s:\n%s" % (name, res.out[-3000:]))
+        rep.add_tlc("Api/" + name, res)
+        got = res.printed()
+        rep.part("Api/" + name, pool=sel, procs=procs, calls_per_goroutine=qlen, behaviours=len(got))
+        for g in got:
+            q = g["queues"]
+            queues = [q[str(p)] for p in procs] if isinstance(q, dict) else q
+            cases.append({"queues": queues, "sched": g["sched"] if len(procs) > 1 else [], "how": name})
+    cfile = sc.path("cases.ndjson")
+    write_ndjson(cfile, cases)
+    out = sc.path("cases-out.ndjson")
+    rc, o = run([vhr, "api-run", pfile, cfile, out], timeout=3000, env={"GORACE": "halt_on_error=0 exitcode=66"})
+    race_reports = []
+    if "DATA RACE" in o:
+        race_reports.append(o[-6000:])
+    elif rc != 0:
+        raise ToolFailure("api-run failed: " + o[-2000:])
+    ncalls = 0
+    results = read_ndjson(out)
+    for ci, (c, r) in enumerate(zip(cases, results)):
+        for ob in r["calls"]:
+            trace.append({"ev": "call", "case": ci, "how": c["how"], "g": ob["g"], "idx": ob["idx"], "id": ob["id"], "res": ob["res"],
+                          "fp": ob["fp"], "events": ob["events"], "panic": ob["panic"]})
+            ncalls += 1
+        trace.append({"ev": "tables", "digest": r["tables"], "case": ci})
+    # free-running concurrency under the race detector
+    sfile = sc.path("stress-out.ndjson")
+    ng, iters = (32, 600) if big else (16, 200)
+    for rnd in range(3 if big else 2):
+        rc, o = run([vhr, "api-stress", pfile, sfile, str(ng), str(iters), str(vlib.seed() * 10 + rnd)], timeout=3000,
+                    env={"GORACE": "halt_on_error=0 exitcode=66", "GOMAXPROCS": str([16, 4, 2][rnd % 3])})
+        if "DATA RACE" in o:
+            race_reports.append(o[-6000:])
+        elif rc != 0:
+            raise ToolFailure("api-stress failed: " + o[-2000:])
+        r = read_ndjson(sfile)[0]
+        for ob in r["calls"]:
+            trace.append({"ev": "call", "case": -1 - rnd, "how": "stress", "g": ob["g"], "idx": ob["idx"], "id": ob["id"], "res": ob["res"],
+                          "fp": ob["fp"], "events": ob["events"], "panic": ob["panic"]})
+            ncalls += 1
+        trace.append({"ev": "tables", "digest": r["tables"], "case": -1 - rnd})
+    for rr in race_reports[:3]:
+        rep.violation("the race detector reported a data race during concurrent calls:\n" + rr[-1500:], {"kind": "api.race", "report": rr[-3000:]})
+    tfile2 = sc.path("api-trace.ndjson")
+    write_ndjson(tfile2, trace)
+    ev, ntr, rejects, st, gen = validate_traces(sc, d, "TraceApi.tla", "TraceApi.cfg", tfile2, shards=1)
+    rep.cov["states"] += st
+    rep.cov["transitions"] += gen
+    for rj in rejects[:50]:
+        im = rj["impl"]
+        rep.violation("%s: pool item %s (%r) under %s: observed %s, reference %s" % (
+            rj["reject"], im.get("id"), show(pool[im["id"] - 1]["in"]) if im.get("id") else "", im.get("how"),
+            json.dumps({k: im.get(k) for k in ("res", "fp", "events")})[:300], json.dumps(rj.get("spec"))[:300]),
+            {"kind": "api.call", "case": cases[im["case"]] if isinstance(im.get("case"), int) and im["case"] >= 0 else im.get("how"),
+             "id": im.get("id"), "in": pool[im["id"] - 1]["in"] if im.get("id") else None, "observed": im})
+    # canary: a corrupted observation must be rejected
+    bad = [dict(t) for t in trace[:len(refs) + 5]]
+    for t in bad:
+        if t["ev"] == "call":
+            t["res"] = not t["res"]
+            break
+    cfile2 = sc.path("api-canary.ndjson")
+    write_ndjson(cfile2, bad)
+    _, _, rj2, _, _ = validate_traces(sc, d, "TraceApi.tla", "TraceApi.cfg", cfile2, shards=1)
+    if not rj2:
+        raise ToolFailure("C05 canary accepted")
+    rep.part("real", pool=len(pool), scheduled_and_history_cases=len(cases), calls_validated=ncalls,
+             stress="%d goroutines x %d calls, race detector on" % (ng, iters), race_reports=len(race_reports))
+    rep.cov["traces_validated_against_impl"] = ncalls
+    rep.cov["evaluations"] = ncalls
+    rep.sample({"schedule_case": cases[len(cases) // 3]})
+    rep.sample({"pool_item": show(pool[3]["in"]), "reference": refs[4]["obs"]})
+    rep.assumptions += ["interleavings are enumerated at gate granularity (start of each SQLi pass / XSS context), not at instruction granularity; "
+                        "the race detector observes the instruction level during the same runs",
+                        "the reference for an input is the call made as the only call of a freshly started process"]
+    return rep.finish()
+
+
+# ---------------------------------------------------------------------------
+# C09  linear time
+
+def time_families(sc, vh, fams, n, factor, reps):
+    """Measure families in parallel sub-processes (one per core pair to limit interference)."""
+    from concurrent.futures import ThreadPoolExecutor
+    k = max(1, min(vlib.NCPU // 2, len(fams) // 20 or 1))
+    per = (len(fams) + k - 1) // k
+    chunks = [fams[i:i + per] for i in range(0, len(fams), per)]
+
+    def work(j):
+        fin = sc.path("time-%d-%d.in" % (n, j))
+        fout = sc.path("time-%d-%d.out" % (n, j))
+        write_ndjson(fin, chunks[j])
+        run([vh, "time-pump", fin, fout, str(n), str(factor), str(reps)], check=True, timeout=3000)
+        return read_ndjson(fout)
+    with ThreadPoolExecutor(max_workers=k) as ex:
+        res = list(ex.map(work, range(len(chunks))))
+    out = []
+    for r in res:
+        out += r
+    return out
+
+
+@check("C09")
+def c09(tier, sc):
+    rep = Report("C09", tier, "exploration")
+    vh = build_harness(sc)
+    tfile, _ = gen_tables(sc, vh)
+    d = stage_specs(sc, "c09", [tfile])
+    big = tier == "thorough"
+    S = vgen.b
+    # families derived from the specification: opener x repeated unit (each lexical construct
+    # repeated, nested or left unterminated)
+    sq_open = ["", "'", '"', "`", "/*", "--", "#", "$a$", "$$", "q'[", "@", "[", "1 ", "select ", "(", "{ ", "e'", "x'", "\\", "1'", "u&'"]
+    sq_units = ["'", "''", "\\'", "\\", "\\\\", '"', "`", "$", "$a$", "$a", "/*", "*/", "/**/", "/*/", "-", "--", "--\n", "#\n", "@", "@@", "(", ")", "((", ",",
+                ";", ".", "1", "1.", "1e", "0x", "a", "a.", "a`", "a ", "or ", "1 or ", "q'", "q'[", "x'", "b'", "n'", "e'", "u&'", "[", "]", "{", "}", "::",
+                "select ", "union ", "1,", "1+", "a=", "\xe9", "\xa0", "\x00", " ", "\n", "!", "<", "|", "&", ":", "?", "in(", "1;"]
+    sq = sqli_props(sc, d, rep, "pump", "pump", sq_units, 1, openers=sq_open)
+    fams = [{"api": "sqli", "pre": c["pre"], "rep": c["rep"], "tail": []} for c in sq]
+    fams += [{"api": "sqli", "pre": c["pre"], "rep": c["rep"], "tail": S("'")} for c in sq[::5]]
+    sig = S("<>/='\"`!-?%[]\x00 a&#;x1")
+    x_open = [S(""), S("<"), S("<a"), S("<a "), S("<a b"), S("<a b="), S("<a b='"), S('<a b="'), S("<a b=`"), S("</"), S("<!"),
+              S("<!--"), S("<![CDATA["), S("<%"), S("<?"), S("<a href="), S("<a/"), S("<a href='")]
+    xs = xss_props(sc, d, rep, "pump", "pump", sig, 1, prefixes=x_open)
+    xunits = [S(u) for u in ("&#", "&#x", "&#1;", "&#x41;", "]]", "--", "-!", "%>", "<a ", "a=b ", "a='b' ", "/>", "</a>", "<!-- -->", "on", "&#1", "java")]
+    for c in xs:
+        s0 = c["in"]
+        if s0:
+            fams.append({"api": "xss", "pre": s0[:-1], "rep": s0[-1:], "tail": []})
+    for o in x_open:
+        for u in xunits:
+            fams.append({"api": "xss", "pre": o, "rep": u, "tail": []})
+    seen = set()
+    uniq = []
+    for f in fams:
+        key = (f["api"], bytes(f["pre"]), bytes(f["rep"]), bytes(f["tail"]))
+        if key not in seen and f["rep"]:
+            seen.add(key)
+            uniq.append(f)
+    fams = uniq
+    n = (128 << 10) if big else (32 << 10)
+    meas = time_families(sc, vh, fams, n, 4, 5 if big else 3)
+    for m, f in zip(meas, fams):
+        m["fam"] = f
+    tr = sc.path("c09-trace.ndjson")
+    write_ndjson(tr, [{k: v for k, v in m.items() if k != "fam"} for m in meas])
+    ev, ntr, rejects, st, gen = validate_traces(sc, d, "MonC09.tla", "MonC09.cfg", tr, shards=1)
+    rep.cov["states"] += st
+    rep.cov["transitions"] += gen
+    suspects = [meas[rj["impl"]["i"]] if False else rj for rj in rejects]
+    confirmed = 0
+    # a suspected violation is re-measured three times at a larger size before it is reported
+    sus_f = []
+    for rj in rejects:
+        line = rj["line"] - 1
+        sus_f.append(meas[line]["fam"])
+    if sus_f:
+        again = [time_families(sc, vh, sus_f, n * 2, 4, 5) for _ in range(3)]
+        for j, f in enumerate(sus_f):
+            ms = [a[j] for a in again]
+
+            def nonlinear(m):
+                return (m["ns"] >= 2000000 and m["ns2"] > 10 * m["ns"]) or m["ns2"] > 2000 * m["n2"]
+            if all(nonlinear(m) for m in ms):
+                confirmed += 1
+                m = ms[0]
+                rep.violation("%s on %r + %r repeated: %d bytes take %.1f ms, %d bytes take %.1f ms (x%.1f for x4 input)" % (
+                    f["api"], show(f["pre"]), show(f["rep"]), m["n"], m["ns"] / 1e6, m["n2"], m["ns2"] / 1e6, m["ns2"] / max(1, m["ns"])),
+                    {"kind": "time", "api": f["api"], "pre": f["pre"], "rep": f["rep"], "tail": f["tail"], "n": m["n"], "factor": 4})
+    slow = sorted(meas, key=lambda m: -m["ns2"])[:5]
+    rep.part("timing", families=len(fams), n=n, factor=4, suspected=len(rejects), confirmed=confirmed,
+             slowest=[{"api": m["fam"]["api"], "pre": show(m["fam"]["pre"]), "rep": show(m["fam"]["rep"]), "ms_at_4n": round(m["ns2"] / 1e6, 2),
+                       "ratio": round(m["ns2"] / max(1, m["ns"]), 1)} for m in slow],
+             measurable=sum(1 for m in meas if m["ns"] >= 2000000))
+    rep.cov["evaluations"] = len(fams) * 2
+    rep.cov["distinct_nontrivial"] = len(fams)
+    rep.cov["rule"] = ("one family per (detector, opener, repeated unit[, tail]) derived from the specification's pump generator; each is "
+                       "distinct by construction and non-trivial (non-empty repeated unit); measured at n and 4n bytes")
+    rep.cov["traces_validated_against_impl"] = len(fams)
+    for m in slow[:3]:
+        rep.sample({"api": m["fam"]["api"], "opener": show(m["fam"]["pre"]), "unit": show(m["fam"]["rep"]), "n": m["n"], "ns": m["ns"], "n2": m["n2"], "ns2": m["ns2"]})
+    rep.assumptions += ["cost is observable only as wall-clock time: minimum of several runs, GC off, thresholds t(4n) <= 10 t(n) when t(n) >= 2 ms "
+                        "and <= 2 us/byte; a suspected family is re-measured three times at twice the size before it is reported",
+                        "the specification-level cost argument (disjoint spans, at most five passes) is model evidence only"]
+    return rep.finish()
